@@ -613,12 +613,13 @@ func (o *ObjectSchema) applySubObjectDefaultValues(
 	for subPropertyID, subProperty := range subObject.Properties() {
 		o.applySubObjectDefaultValues(subPropertyID, subProperty, data, path...)
 	}
-	for subPropertyID, subProperty := range subObject.Properties() {
-		if _, isSet := data[subPropertyID]; !isSet && subProperty.Required() {
-			// The defaults alone do not make a value of this object: the property stays as unset as the input left it,
-			// and is reported as such if it is required.
-			return
-		}
+	subSchema, _ := ConvertToObjectSchema(subObject)
+	rules, hasRules := subSchema.(*ObjectSchema)
+	if !hasRules || rules.validateFieldInterdependencies(data) != nil {
+		// The defaults alone do not make a value of this object (a required property, or one that is required because
+		// of what is or is not set, is missing): the property stays as unset as the input left it, and is reported as
+		// such if it is required.
+		return
 	}
 	if len(data) != 0 {
 		rawData[propertyID] = data
